@@ -346,6 +346,7 @@ func (f *FileLogger) updateFile() {
 		fi, err = f.out.Stat()
 		if err != nil {
 			f.logf(lg.FATAL, "[%s/%s] unable to stat file %s: %s", f.topic, f.opts.Channel, f.out.Name(), err)
+			os.Exit(1)
 		}
 		f.filesize = fi.Size()
 
